@@ -1601,7 +1601,12 @@ func ExecGroupBy(query *Query, current []any) ([]any, error) {
 	if len(query.groupDefinition) == 0 {
 		return current, nil
 	}
-	grouped := make(map[*map[string]any][]any)
+	// groups are kept in a slice so that they come out in order of first appearance
+	type group struct {
+		key   map[string]any
+		items []any
+	}
+	grouped := make([]*group, 0)
 	for _, item := range current {
 		innerMap := make(map[string]any)
 		for key := range query.groupDefinition {
@@ -1611,11 +1616,11 @@ func ExecGroupBy(query *Query, current []any) ([]any, error) {
 			}
 			innerMap[key] = rs
 		}
-		var ref *map[string]any
-		for group := range grouped {
+		var ref *group
+		for _, group := range grouped {
 			isMatch := true
 			for key, value := range innerMap {
-				if (*group)[key] != value {
+				if group.key[key] != value {
 					isMatch = false
 					break
 				}
@@ -1626,19 +1631,18 @@ func ExecGroupBy(query *Query, current []any) ([]any, error) {
 			}
 		}
 		if ref != nil {
-			grouped[ref] = append(grouped[ref], item)
+			ref.items = append(ref.items, item)
 			continue
 		}
-		grouped[&innerMap] = make([]any, 0)
-		grouped[&innerMap] = append(grouped[&innerMap], item)
+		grouped = append(grouped, &group{key: innerMap, items: []any{item}})
 	}
 	slice := make([]any, 0)
-	for key, item := range grouped {
+	for _, group := range grouped {
 		current := make(Map)
-		for innerKey, innerValue := range *key {
+		for innerKey, innerValue := range group.key {
 			current[innerKey] = innerValue
 		}
-		current["*"] = item
+		current["*"] = group.items
 		rs, err := ExecHaving(query, current)
 		if err != nil {
 			return nil, err
